@@ -35,7 +35,11 @@ EXTRA_TRUSTED = [
     "C17_fit_stream / C17_fit_schedule = the C17 theorems composed with the C12 model of fit (tied to the code by the C12 check and by the "
     "fit-stream oracle here)",
     "C17: file_name has the form pre+'{}'+post; obs_name+'_'+stat_name is injective on the pairs that occur; "
-    "torch.save/torch.load round-trip (C11); verbose printing and pre-existing log-file content are not modelled",
+    "torch.save/torch.load round-trip (C11); verbose printing is not modelled; a log file that already exists is the theorems' arbitrary list of old rows "
+    "(executed by the appended-log cases, oracle on the implementation only)",
+    "C17: every scripted value (metric values, System.statistics results, messages, metadata, parameter snapshots) is a function of the world token the "
+    "harness Recorder - placed FIRST in the callback list - sets for the event being dispatched; that callbacks are dispatched in list order is C12's "
+    "property, not re-checked here",
 ]
 RULE = ("case = (state kind, seed, callback list [two metric evaluators with different periods, observable evaluator, "
         "model saver, logger; periods 1..7, log on/off, verbose on/off, metadata callable/dict/none, metadata_only, save_initial True/False/default], "
@@ -48,7 +52,14 @@ RULE = ("case = (state kind, seed, callback list [two metric evaluators with dif
         "ARGUMENT FORMS (seeds `fseed` / `iseed` of the case): every integer option of every public call (period of all four callbacks, num_samples / "
         "num_chains / burn_in / steps, get_value's index, fit's epochs / pos_batch_size / neg_batch_size / k / starting_epoch) is handed over as a Python int, "
         "numpy integer scalar, 0-d numpy array or 0-d torch tensor, every boolean option (verbose, save_initial, metadata_only, time, progbar) as the bool "
-        "singleton, int, numpy bool, 0-d array or 0-d tensor, by keyword and positionally (constructors, get_value, fit); the model is told the VALUES")
+        "singleton, int, numpy bool, 0-d array or 0-d tensor, by keyword and positionally (constructors, get_value, fit); the model is told the VALUES; "
+        "NOT COMPARED, only counted (outside the property text / quantifier): period < 1, a metric called 'epoch' with a log file, a reserved metadata key "
+        "(refused or not, when, with which exception), exception TYPES of lookups (untracked name, index outside -n..n-1, unknown statistic: only "
+        "raises-or-not; an untracked name on an EMPTY history: nothing), the TEXT of the default Logger message (property level = how many messages and "
+        "during which epoch-end events), the on-disk layout of saved files (verdict = a fresh state `load`s the file through the library and has the "
+        "recorder's parameters of that epoch; every requested metadata entry is stored under its key); "
+        "APPENDED LOGS: four fixed cases with a log file that already exists (pre-filled by hand, a second evaluator given the path of an earlier one): "
+        "the rows after the evaluator's own header == one row per evaluation")
 
 STAT_QUERIES = ["mean", "means", "variance", "variances", "std_error", "std_errors", "num_samples", "num_sample", "foo", "s",
                 "", "ss", "data", "datas", "bias", "bia", "biass", "meanss", "__class__", "__dict__", "__getitem__"]
@@ -392,29 +403,34 @@ def build_callbacks(case, rec, tmp, st, fm):
                     fm.called("ModelSaver", "3-positional")
             b.obj = ModelSaver(*args, **kw)
         elif cb["type"] == "logger":
-            b.out = []
+            b.out = []        # what logger_fn was handed, in order
+            b.out_at = []     # ... and WHEN: the world token of the event being dispatched (set by the Recorder, first in the callback list)
+
+            def log_fn(m, _b=b):
+                _b.out.append(m)
+                _b.out_at.append(rec.cur)
             pobj = fm.period("logger", cb["period"])
             how = fm.pick(["positional-period", "keyword-period", "positional-logger_fn", "positional-msg_gen"]) if fm.on else "positional-period"
             fm.called("Logger", how)
             if cb.get("default_msg"):
                 if how == "keyword-period":
-                    b.obj = Logger(logger_fn=b.out.append, tag="x", period=pobj)
+                    b.obj = Logger(logger_fn=log_fn, tag="x", period=pobj)
                 elif how == "positional-period":
-                    b.obj = Logger(pobj, logger_fn=b.out.append, tag="x")
+                    b.obj = Logger(pobj, logger_fn=log_fn, tag="x")
                 else:
-                    b.obj = Logger(pobj, b.out.append, tag="x")
+                    b.obj = Logger(pobj, log_fn, tag="x")
             else:
                 def msg_gen(nn_state, e, *a, _saw=saw, _b=b, **kw):
                     _saw(nn_state, a, kw)
                     return [rec.cur, e, kw.get("tag"), _b.seen[-1]["psig"]]
                 if how == "keyword-period":
-                    b.obj = Logger(msg_gen=msg_gen, logger_fn=b.out.append, tag="x", period=pobj)
+                    b.obj = Logger(msg_gen=msg_gen, logger_fn=log_fn, tag="x", period=pobj)
                 elif how == "positional-period":
-                    b.obj = Logger(pobj, logger_fn=b.out.append, msg_gen=msg_gen, tag="x")
+                    b.obj = Logger(pobj, logger_fn=log_fn, msg_gen=msg_gen, tag="x")
                 elif how == "positional-logger_fn":
-                    b.obj = Logger(pobj, b.out.append, msg_gen=msg_gen, tag="x")
+                    b.obj = Logger(pobj, log_fn, msg_gen=msg_gen, tag="x")
                 else:
-                    b.obj = Logger(pobj, b.out.append, msg_gen, tag="x")
+                    b.obj = Logger(pobj, log_fn, msg_gen, tag="x")
         built.append(b)
     return built
 
@@ -641,6 +657,59 @@ def model_eval_view(m, b, cellstr):
     return out
 
 
+# ---------------------------------------------------------------- what of a view is compared (audit2-4 X-1 c)
+def _is_err(x):
+    return isinstance(x, dict) and "error" in x
+
+
+def _soft(x):
+    """exception TYPES are never compared: {"error": T} -> {"raises": True} (recursively)"""
+    if isinstance(x, dict):
+        if set(x) == {"error"}:
+            return {"raises": True}
+        return {k: _soft(v) for k, v in x.items()}
+    if isinstance(x, list):
+        return [_soft(v) for v in x]
+    return x
+
+
+UNCONSTRAINED = "not compared (untracked name on an empty history)"
+
+
+def soften_view(view, tracked):
+    """the part of an evaluator view (implementation's or model's) the property constrains. "Indexed lookup ... agrees with the values computed at
+    those epochs" speaks of tracked names and of indices that denote a record (-n <= i < n): those entries stay exact. For an UNTRACKED name and for an
+    index outside -n..n-1 there is no value to agree with: only "raises (any exception) or not" is kept, and for an untracked name on an EMPTY
+    history (the clean code returns `array([])` there and raises once there are records - a quirk of the list comprehension in `__getattr__`)
+    nothing at all. Exception TYPES (IndexError / KeyError / AttributeError, unknown statistic keys) are never compared."""
+    n = view["len"] if isinstance(view.get("len"), int) else 0
+    out = dict(view)
+
+    def untracked(e, nested):
+        if n == 0:
+            return UNCONSTRAINED
+        if nested:
+            return [[sq, {"raises": _is_err(x)}] for sq, x in e] if isinstance(e, list) else {"raises": _is_err(e)}
+        return {"raises": _is_err(e)}
+    for key in ("series", "attr", "stat_series", "stat_attr"):
+        if key not in view:
+            continue
+        rows = []
+        for nm, e in view[key]:
+            if nm in tracked or (key == "attr" and isinstance(e, dict) and "own" in e):
+                rows.append([nm, e])
+            else:
+                rows.append([nm, untracked(e, key.startswith("stat_"))])
+        out[key] = rows
+    out["get_value"] = [[nm, [[i, r if (nm in tracked and -n <= i < n) else {"raises": _is_err(r)}] for i, r in tab]] for nm, tab in view["get_value"]]
+    out["get_value_default"] = [[nm, r if (nm in tracked and n > 0) else {"raises": _is_err(r)}] for nm, r in view["get_value_default"]]
+    return _soft(out)
+
+
+def tracked_names(spec):
+    return list(spec["names"]) if spec["type"] == "metric" else list(dict.fromkeys(obs_entry(o)[1] for o in spec["obs"]))
+
+
 # ---------------------------------------------------------------- one case
 def fit_call(fm, seg, data, bases, cbl):
     """(args, kwargs, time truthy?) of one `fit(data, epochs, pos_batch_size, neg_batch_size, k, lr, input_bases, progbar, starting_epoch, time,
@@ -678,21 +747,76 @@ def fit_call(fm, seg, data, bases, cbl):
     return args, kw, time_on
 
 
+def malformed_reasons(case):
+    """why a case lies OUTSIDE the quantifier of the property (p >= 1; documented refusals of the library: a metric called "epoch" together with
+    a log file, a metadata key that is the name of a network). The property says nothing about such inputs: whether the implementation refuses
+    them (at construction, in the run, with which exception) or accepts them is COUNTED, never compared (DESIGN 13.8, audit2-4 X-1)."""
+    out = []
+    for cb in case.get("cbs", []):
+        if cb["period"] < 1:
+            out.append(f"{cb['type']}.period<1")
+        if cb["type"] == "metric" and cb["log"] and "epoch" in cb["names"]:
+            out.append("metric-named-epoch+log")
+        if cb["type"] == "saver" and cb.get("reserved") and not cb["metadata_only"]:
+            out.append("saver.reserved-metadata-key")
+    return out
+
+
 def run_case(ctx, case):
     tmp = tempfile.mkdtemp(prefix="qv_c17_")
     try:
-        _run_case(ctx, case, tmp)
+        why = malformed_reasons(case)
+        if why:
+            _run_malformed(ctx, case, tmp, why)
+        else:
+            _run_case(ctx, case, tmp)
     finally:
         shutil.rmtree(tmp, ignore_errors=True)
+
+
+def _run_malformed(ctx, case, tmp, why):
+    """an input outside the quantifier: run it, COUNT what happened (refused when built / refused in the run / accepted); no point, no oracle"""
+    label = "+".join(sorted(set(why)))
+    outcome = "accepted"
+    try:
+        st, data, bases = make_state(case["kind"], case["seed"])
+        rec = Recorder()
+        fm = Forms(ctx, case)
+        try:
+            built = build_callbacks(case, rec, tmp, st, fm)
+        except Exception as e:  # noqa: BLE001
+            built, outcome = None, f"refused-when-built({type(e).__name__})"
+        if built is not None:
+            for seg in case["segments"]:
+                st.stop_training = False
+                args, kw, _ = fit_call(fm, seg, data, bases, [rec] + [b.obj for b in built])
+                try:
+                    with contextlib.redirect_stdout(io.StringIO()), contextlib.redirect_stderr(io.StringIO()):
+                        st.fit(*args, **kw)
+                except Exception as e:  # noqa: BLE001
+                    outcome = f"refused-in-the-run({type(e).__name__})"
+                    break
+    except Exception as e:  # noqa: BLE001
+        outcome = f"harness-side({type(e).__name__})"
+    ctx.case(case, nontrivial=False)
+    ctx.count(f"malformed[{label}]={outcome}")
 
 
 def _run_case(ctx, case, tmp):
     st, data, bases = make_state(case["kind"], case["seed"])
     rec = Recorder()
     fm = Forms(ctx, case)
-    built = build_callbacks(case, rec, tmp, st, fm)
-    periods = [cb["period"] for cb in case["cbs"]]
     sig0 = f"C17/{case['kind']}"
+    try:
+        built = build_callbacks(case, rec, tmp, st, fm)
+    except Exception as e:  # noqa: BLE001
+        # a configuration INSIDE the quantifier (p >= 1, ...) that cannot even be built: the callbacks never act
+        ctx.case(case, nontrivial=False)
+        ctx.oracle("a configuration inside the quantifier (periods >= 1, valid names / metadata) can be built", False, case,
+                   detail={"raised": type(e).__name__, "msg": str(e)[:200]}, sig=f"{sig0}/construction-refused",
+                   theorem="C17_schedule_metric, C17_schedule_observable, C17_schedule_saver, C17_schedule_logger (hypothesis 1 <= p only)")
+        return
+    periods = [cb["period"] for cb in case["cbs"]]
 
     # tokens for observable statistics values: the IEEE bit pattern of the value
     def obs_token(x):
@@ -710,7 +834,9 @@ def _run_case(ctx, case, tmp):
             return observe_eval(b, tokd, fm)
         if t == "saver":
             return {"files": sorted(os.listdir(b.folder))}
-        return {"out": list(b.out)}
+        # `acted`: per message handed to logger_fn, [world token, epoch] of the event during which it was emitted
+        ev_of = {ev["w"]: ev for ev in rec.events}
+        return {"out": list(b.out), "acted": [[w, ev_of[w].get("e") if ev_of[w]["k"] == "ee" else ev_of[w]["k"]] for w in b.out_at]}
 
     after_clear = []     # per segment: observation of the cleared evaluators right after clear_history
     seg_results = []     # per segment: None (ok) or exception kind
@@ -828,8 +954,10 @@ def _run_case(ctx, case, tmp):
         for si, (err, snaps) in enumerate(zip(seg_results, impl_snaps)):
             c = {**case, "at_segment": si}
             mseg = model[si] if si < len(model) else {"error": "model produced no segment"}
-            ctx.point("exception", "property", err, mseg.get("error"), c, exact=True, sig=f"{sig0}/exception",
-                      theorem="C17_* (the hypotheses p>=1, no metric named 'epoch' with a log, no reserved metadata key exclude every error)")
+            # inside the quantifier neither side raises; WHICH exception a failing run raises is not compared (only shown)
+            ctx.point("run raises", "property", err is not None, "error" in mseg, {**c, "raised": err, "model_error": mseg.get("error")}, exact=True,
+                      sig=f"{sig0}/exception",
+                      theorem="C17_fit_callbacks (the hypotheses p>=1, no metric named 'epoch' with a log, no reserved metadata key exclude every error)")
             if err is not None or "error" in mseg:
                 break
             for ci, (b, isnap, msnap) in enumerate(zip(built, snaps, mseg["after"])):
@@ -842,12 +970,17 @@ def _run_case(ctx, case, tmp):
                         cellstr = lambda cell: cell["t"] if "t" in cell else str(cell["i"]) if "i" in cell else repr(b2f(cell["v"])) if "v" in cell else ""  # noqa: E731
                     mv = model_eval_view(msnap, b, cellstr)
                     th = "C17_records_metric_run" if t == "metric" else "C17_records_observable_run"
+                    # informational: do the parts the property does NOT constrain (exception types, untracked names, out-of-range indices) also
+                    # coincide with the model of the present code?
+                    raw_eq = all(isnap.get(k) == mv.get(k) for k in ("series", "get_value", "get_value_default", "attr", "stat_series", "stat_attr"))
+                    ctx.count("info.unconstrained-lookups(exception types, untracked names, out-of-range indices)-equal-model=" + ("yes" if raw_eq else "no"))
+                    isnap, mv = soften_view(isnap, tracked_names(b.spec)), soften_view(mv, tracked_names(b.spec))
                     ctx.point(f"{t}.epochs", "property", isnap["epochs"], mv["epochs"], cc, exact=True, sig=f"{sig0}/{t}/schedule", theorem=f"C17_schedule_{t}")
                     ctx.point(f"{t}.len", "property", isnap["len"], mv["len"], cc, exact=True, sig=f"{sig0}/{t}/len", theorem="C17_records_len_epochs")
                     ctx.point(f"{t}.names", "property", isnap["names"], mv["names"], cc, exact=True, sig=f"{sig0}/{t}/names", theorem="names = keys (model by construction)")
                     ctx.point(f"{t}.last", "property", isnap["last"], mv["last"], cc, exact=True, sig=f"{sig0}/{t}/last", theorem=th)
-                    ctx.point(f"{t}.series", "property", isnap["series"], mv["series"], cc, exact=True, sig=f"{sig0}/{t}/series", theorem="C17_records_getitem, C17_records_getitem_missing")
-                    ctx.point(f"{t}.get_value", "property", isnap["get_value"], mv["get_value"], cc, exact=True, sig=f"{sig0}/{t}/get_value", theorem="C17_records_get_value, C17_records_get_value_out_of_range")
+                    ctx.point(f"{t}.series", "property", isnap["series"], mv["series"], cc, exact=True, sig=f"{sig0}/{t}/series", theorem="C17_records_getitem")
+                    ctx.point(f"{t}.get_value", "property", isnap["get_value"], mv["get_value"], cc, exact=True, sig=f"{sig0}/{t}/get_value", theorem="C17_records_get_value (in range: exact; outside -n..n-1 / untracked name: raises-or-not only)")
                     ctx.point(f"{t}.get_value_default", "property", isnap["get_value_default"], mv["get_value_default"], cc, exact=True, sig=f"{sig0}/{t}/get_value_default", theorem="C17_records_get_value_default")
                     ctx.point(f"{t}.log", "property", isnap["log"], mv["log"], cc, exact=True, sig=f"{sig0}/{t}/csv", theorem=th + (", C17_records_observable_csv_row" if t == "observable" else ""))
                     ctx.point(f"{t}.attr", "property", isnap["attr"], mv["attr"], cc, exact=True, sig=f"{sig0}/{t}/attribute-syntax", theorem="C17_records_getattr")
@@ -858,20 +991,26 @@ def _run_case(ctx, case, tmp):
                     names = sorted({wr["name"] for wr in msnap["writes"]})
                     ctx.point("saver.files", "property", isnap["files"], names, cc, exact=True, sig=f"{sig0}/saver/files", theorem="C17_saver")
                 else:
+                    # property level: HOW MANY messages were emitted and during WHICH epoch-end events (observed by bracketing: the world token the
+                    # Recorder set for the event being dispatched), for both kinds of logger
+                    ctx.point("logger.acted", "property", isnap["acted"], [[w, e] for (w, e) in msnap["out"]], cc, exact=True, sig=f"{sig0}/logger/schedule",
+                              theorem="C17_schedule_logger")
                     if b.spec.get("default_msg"):
-                        # the model's `defaultMsg` (Logger._default_msg_gen) applied to the epochs at which the model's Logger acted
+                        # the WORDING of the default message is not part of the property (audit2-4 C17-1): informational only
                         mo = ctx.driver.call("c17.default_msg", kwargs_repr=str({"tag": "x"}), epochs=[e for (_, e) in msnap["out"]])
+                        ctx.count("info.logger.default-message-text-equals-model=" + ("yes" if isnap["out"] == mo else "no"))
                     else:
+                        # a user-supplied msg_gen: what it returned at that epoch is what logger_fn receives (scripted: [world, epoch, tag, live psig])
                         mo = [[w, e, "x", rec.psig(w)] for (w, e) in msnap["out"]]
-                    ctx.point("logger.out", "property", isnap["out"], mo, cc, exact=True, sig=f"{sig0}/logger/schedule",
-                              theorem="C17_logger_default_msg" if b.spec.get("default_msg") else "C17_schedule_logger")
+                        ctx.point("logger.out", "property", isnap["out"], mo, cc, exact=True, sig=f"{sig0}/logger/messages", theorem="C17_schedule_logger")
             for ci, b in enumerate(built):
                 isnap = after_clear[si][ci] if si < len(after_clear) else None
                 if isnap is None:
                     continue
                 msnap = mseg["after_clear"][ci]
                 t = b.spec["type"]
-                mv = model_eval_view(msnap, b, lambda cell: "")
+                mv = soften_view(model_eval_view(msnap, b, lambda cell: ""), tracked_names(b.spec))
+                isnap = soften_view(isnap, tracked_names(b.spec))
                 for key in ("len", "epochs", "last", "series", "attr", "get_value", "get_value_default"):
                     ctx.point(f"{t}.after_clear.{key}", "property", isnap[key], mv[key], {**c, "callback": ci}, exact=True,
                               sig=f"{sig0}/{t}/clear_history", theorem="C17_records_clear_history")
@@ -968,6 +1107,60 @@ def files_equal_snapshot(loaded, snap, nets):
     return True
 
 
+def snaps_equal(got, snap):
+    if set(got) != set(snap):
+        return False
+    for net in snap:
+        if set(got[net].keys()) != set(snap[net].keys()):
+            return False
+        for k in snap[net]:
+            if got[net][k].shape != snap[net][k].shape or not torch.equal(got[net][k], snap[net][k]):
+                return False
+    return True
+
+
+def file_loads_back(ctx, path, kind, snap, md, st):
+    """does the file at `path` LOAD BACK - through the library - to the parameters `snap` with the metadata `md`?
+    Verdict (property level): a FRESH state of the same kind (other parameters) calls the public `load(path)` and then has exactly the parameters of
+    the recorder's snapshot; and every requested metadata entry is stored in the file under its key with its value (`torch.load`: the documented way
+    to read the metadata back). Informational only: `Kind.autoload(path)` gives the same parameters; the present on-disk LAYOUT (one state_dict per
+    network name at the top level, nothing else besides metadata and unitary_dict) - a rewrite that changes the layout in `save` and `load`
+    consistently keeps the property (audit2-4 C17-2)."""
+    detail = {}
+    with torch.random.fork_rng():
+        st2 = make_state(kind, 777)[0]
+    try:
+        st2.load(path)
+        ok_params = snaps_equal(snapshot(st2), snap)
+    except Exception as e:  # noqa: BLE001
+        ok_params = False
+        detail["load_raised"] = f"{type(e).__name__}: {str(e)[:120]}"
+    detail["fresh_state.load(path)_gives_the_snapshot"] = ok_params
+    try:
+        loaded = torch.load(path, weights_only=False)
+        ok_md = all(k in loaded and loaded[k] == v for k, v in md.items())
+        detail["stored_metadata"] = repr({k: loaded.get(k, "<missing>") for k in md})[:300]
+    except Exception as e:  # noqa: BLE001
+        loaded, ok_md = None, not md
+        detail["torch.load_raised"] = type(e).__name__
+    detail["expected_metadata"] = repr(md)[:300]
+    # informational
+    try:
+        auto = type(st).autoload(path, gpu=False)
+        ctx.count("info.saver.autoload(path)-gives-the-snapshot=" + ("yes" if snaps_equal(snapshot(auto), snap) else "no"))
+    except Exception as e:  # noqa: BLE001
+        ctx.count(f"info.saver.autoload(path)-gives-the-snapshot=raised({type(e).__name__})")
+    layout = False
+    if isinstance(loaded, dict):
+        try:
+            extra = {k: v for k, v in loaded.items() if k not in st.networks and k != "unitary_dict"}
+            layout = files_equal_snapshot(loaded, snap, st.networks) and extra == md and ("unitary_dict" in loaded) == hasattr(st, "unitary_dict")
+        except Exception:  # noqa: BLE001
+            layout = False
+    ctx.count("info.saver.on-disk-layout(state_dict per network + metadata + unitary_dict)-as-modelled=" + ("yes" if layout else "no"))
+    return ok_params and ok_md, detail
+
+
 def check_files(ctx, case, cc, b, st, rec, writes, sig0):
     lastw = {}
     for wr in writes:
@@ -977,18 +1170,15 @@ def check_files(ctx, case, cc, b, st, rec, writes, sig0):
         if not os.path.exists(path):
             ctx.point("saver.file_exists", "property", False, True, {**cc, "file": name}, exact=True, sig=f"{sig0}/saver/files", theorem="C17_saver")
             continue
-        loaded = torch.load(path, weights_only=False)
         md = md_expected(b, rec, wr["md"])
         if wr["body"] == "meta":
+            # metadata_only: the file IS the metadata (there are no parameters to load)
+            loaded = torch.load(path, weights_only=False)
             ok = loaded == md
             detail = {"loaded": repr(loaded)[:300], "expected": repr(md)[:300]}
         else:
-            extra = {k: v for k, v in loaded.items() if k not in st.networks and k != "unitary_dict"}
-            ok_params = files_equal_snapshot(loaded, rec.worlds[wr["w"]], st.networks)
-            ok_ud = ("unitary_dict" in loaded) == hasattr(st, "unitary_dict")
-            ok = ok_params and extra == md and ok_ud
-            detail = {"params_equal_snapshot_at_world": ok_params, "metadata": repr(extra)[:300], "expected": repr(md)[:300],
-                      "world": wr["w"], "arg": wr["arg"]}
+            ok, detail = file_loads_back(ctx, path, case["kind"], rec.worlds[wr["w"]], md, st)
+            detail.update(world=wr["w"], arg=wr["arg"])
         ctx.point("saver.file_content", "property", bool(ok), True, {**cc, "file": name, "detail": detail}, exact=True,
                   sig=f"{sig0}/saver/content", theorem="C17_saver, C17_saver_file_last, C17_saver_file_overwrite (last write wins over several runs)")
 
@@ -996,26 +1186,16 @@ def check_files(ctx, case, cc, b, st, rec, writes, sig0):
 def oracle_checks(ctx, case, built, rec, seg_events, seg_results, impl_snaps, st, sig0):
     """independent re-statement of the property on the implementation only"""
     if any(e is not None for e in seg_results):
-        # error cases: the documented reason must be present
+        # (inputs outside the quantifier never get here: `_run_malformed`)
         err = next(e for e in seg_results if e is not None)
-        reasons = []
-        for cb in case["cbs"]:
-            if cb["period"] == 0:
-                reasons.append("ZeroDivisionError")
-            if cb["type"] == "metric" and cb["log"] and "epoch" in cb["names"]:
-                reasons.append("TypeError")
-            if cb["type"] == "saver" and cb.get("reserved") and not cb["metadata_only"]:
-                reasons.append("ValueError")
-        ctx.oracle("exception has a documented cause", err in reasons, case, detail={"raised": err, "expected_one_of": reasons},
-                   sig=f"{sig0}/unexpected-exception")
+        ctx.oracle("a run inside the quantifier (periods >= 1, valid names / metadata) does not raise", False, case, detail={"raised": err},
+                   sig=f"{sig0}/unexpected-exception", theorem="C17_fit_callbacks")
         return
     for ci, b in enumerate(built):
         cb = b.spec
         p = cb["period"]
         cc = {**case, "callback": ci}
         t = cb["type"]
-        if p < 1:
-            continue       # outside the quantifier (p >= 1): an implementation that does not refuse it is reported by the `exception` point
         # ground truth: epoch-ends per segment, evaluations kept since the last clear_history of this callback
         kept, allev = [], []
         for si, (evs, seg) in enumerate(zip(seg_events, case["segments"])):
@@ -1053,8 +1233,8 @@ def oracle_checks(ctx, case, built, rec, seg_events, seg_results, impl_snaps, st
                         if -n <= i < n:
                             okgv &= r == {"ok": col[i]}
                         else:
-                            okgv &= r == {"error": "IndexError"}
-                ctx.oracle(f"{t}: get_value(name, i) == series[i] (python indexing), IndexError outside", okgv, {**cc, "at_segment": si},
+                            okgv &= "error" in r           # raises (whatever the exception)
+                ctx.oracle(f"{t}: get_value(name, i) == series[i] (python indexing), raises outside -n..n-1", okgv, {**cc, "at_segment": si},
                            sig=f"{sig0}/{t}/get_value-oracle", theorem="C17_records_get_value")
                 try:
                     lastok = (snap["last"] == [[nm, ser[nm]["ok"][-1]] for nm in tracked]) if n else snap["last"] == []
@@ -1080,12 +1260,14 @@ def oracle_checks(ctx, case, built, rec, seg_events, seg_results, impl_snaps, st
                         ctx.oracle("observable: CSV == header + mean/variance/std_error per evaluation", snap["log"] == rows, {**cc, "at_segment": si},
                                    detail={"got": snap["log"][:4], "expected": rows[:4]}, sig=f"{sig0}/observable/csv-oracle", theorem="C17_records_observable_csv_row")
             elif t == "logger":
-                if cb.get("default_msg"):
-                    exp = ["Epoch " + str(e) + ": " + str({"tag": "x"}) for e, _ in allev]
-                else:
-                    exp = [[w, e, "x", rec.psig(w)] for e, w in allev]
-                ctx.oracle("logger: one message per multiple of p", snap["out"] == exp, {**cc, "at_segment": si},
-                           detail={"got": snap["out"], "expected": exp}, sig=f"{sig0}/logger/schedule-oracle", theorem="C17_schedule_logger")
+                # one message per scheduled epoch-end, emitted DURING that epoch-end (the text of the default message is not constrained)
+                exp_at = [[w, e] for e, w in allev]
+                okl = snap["acted"] == exp_at
+                if not cb.get("default_msg"):
+                    okl = okl and snap["out"] == [[w, e, "x", rec.psig(w)] for e, w in allev]
+                ctx.oracle("logger: exactly one message during each epoch-end that is a multiple of p, none at any other time", okl, {**cc, "at_segment": si},
+                           detail={"acted_at[world, epoch]": snap["acted"], "expected": exp_at, "messages": [str(m)[:60] for m in snap["out"][:4]]},
+                           sig=f"{sig0}/logger/schedule-oracle", theorem="C17_schedule_logger")
             if seg.get("clear") and ci in seg["clear"]:
                 kept = []
         if t == "metric":
@@ -1109,7 +1291,6 @@ def oracle_checks(ctx, case, built, rec, seg_events, seg_results, impl_snaps, st
             bad = None
             if ok:
                 for name, (w, e) in exp.items():
-                    loaded = torch.load(os.path.join(b.folder, name), weights_only=False)
                     if cb["metadata"] == "callable":
                         md = md_expected(b, rec, ["call", w, e])
                     elif cb["metadata"] == "dict":
@@ -1117,12 +1298,12 @@ def oracle_checks(ctx, case, built, rec, seg_events, seg_results, impl_snaps, st
                     else:
                         md = {}
                     if cb["metadata_only"]:
-                        good = loaded == md
+                        good, why = torch.load(os.path.join(b.folder, name), weights_only=False) == md, None
                     else:
-                        extra = {k: v for k, v in loaded.items() if k not in st.networks and k != "unitary_dict"}
-                        good = files_equal_snapshot(loaded, rec.worlds[w], st.networks) and extra == md
+                        # through the library: a fresh state `load`s the file and has the parameters of the recorder's snapshot of that event
+                        good, why = file_loads_back(ctx, os.path.join(b.folder, name), case["kind"], rec.worlds[w], md, st)
                     if not good:
-                        ok, bad = False, name
+                        ok, bad = False, {"file": name, "why": why}
                         break
             ctx.oracle("saver: files named by epoch (+initial), each loads back to the parameters at that event with the metadata", ok, cc,
                        detail={"files": files, "expected": sorted(exp), "bad_file": bad}, sig=f"{sig0}/saver/oracle", theorem="C17_saver, C17_saver_file_overwrite, C17_saver_file_none")
@@ -1222,6 +1403,7 @@ def run(ctx):
         ctx.point("stripPlural", "aux", [w[:-1] if w.endswith("s") else w for w in words], got, {"words": words}, exact=True, sig="C17/stripPlural")
     own_sanity(ctx)
     format_spec_cases(ctx)
+    appended_log_cases(ctx)
     for case in gen_cases(ctx, ctx.tier == "thorough"):
         run_case(ctx, case)
 
@@ -1258,14 +1440,107 @@ def format_spec_cases(ctx, forms=True):
                 if ok:
                     for ev in rec.events:
                         if ev["k"] == "ee" and ev["e"] % 2 == 0:
-                            loaded = torch.load(os.path.join(tmp, "f", "m%03d.pt" % ev["e"]), weights_only=False)
-                            ok = ok and files_equal_snapshot(loaded, rec.worlds[ev["w"]], st.networks)
+                            ok = ok and file_loads_back(ctx, os.path.join(tmp, "f", "m%03d.pt" % ev["e"]), "pos", rec.worlds[ev["w"]], {}, st)[0]
                 ctx.oracle("saver: a format spec in file_name formats the epoch; files load back to the parameters at that epoch's end", ok, case,
                            detail={"error": err, "files": files}, sig="C17/saver/format-spec", theorem="C17_saver (file naming is str.format: assumed)")
             else:
-                ctx.oracle("saver: an integer format spec cannot format 'initial' (ValueError at train start, nothing saved)",
-                           err == "ValueError" and files == [] and [ev["k"] for ev in rec.events] == ["ts"], case,
-                           detail={"error": err, "files": files}, sig="C17/saver/format-spec-initial")
+                # an integer format spec cannot format the word "initial": what then happens (the clean code: ValueError at train start, nothing
+                # saved) is not something the property speaks about - counted, not compared
+                ctx.count(f"info.saver.format-spec+initial-save={'raised(' + err + ')' if err else 'accepted'}, files={len(files)}")
+        finally:
+            shutil.rmtree(tmp, ignore_errors=True)
+
+
+def appended_log_cases(ctx):
+    """a log file that ALREADY EXISTS when the evaluator is built (audit2-4 C17-3: re-running a script; a second evaluator given the path of an
+    earlier one). The library opens the file in append mode and writes a (second) header. The property's "the CSV log agrees with the values
+    computed at those epochs in order" can then only speak about what THIS evaluator appended: the rows after its header (if the implementation
+    writes no second header: the last rows of the file) are exactly one row per evaluation, in order. Whether the earlier content is kept and
+    whether a second header is written is counted, not compared. Oracle on the implementation only (C17_records_metric_run /
+    C17_records_observable_run are stated for an ARBITRARY list of old rows: log = old rows ++ one row per evaluation)."""
+    from qucumber.callbacks import MetricEvaluator, ObservableEvaluator
+    from qucumber.observables import SigmaX, SigmaZ
+    variants = ["metric/prefilled-by-hand", "metric/second-evaluator-same-path", "observable/second-evaluator-same-path", "metric/prefilled-same-header"]
+    for vi, variant in enumerate(variants):
+        case = {"appended_log": variant, "aseed": 40 + vi}
+        r = random.Random(case["aseed"] * 7919)     # fixed cases (not drawn from ctx.rng): the replay re-runs all of them
+        p1, p2 = r.choice([1, 2, 3]), r.choice([1, 2, 3])
+        e1, e2 = r.choice([3, 4, 5]), r.choice([4, 6, 7])
+        tmp = tempfile.mkdtemp(prefix="qv_c17a_")
+        try:
+            path = os.path.join(tmp, "shared log.csv")
+            st, data, bases = make_state("pos", 5 + vi)
+            rec = Recorder()
+            err = None
+            captured = {}
+
+            def mk(idx):
+                return lambda nn_state, **kw: metric_value(idx, rec.cur, 0, 0)
+
+            def wrap_stats(ev):
+                orig = ev.system.statistics
+
+                def wrapped(nn_state, *a, **k):
+                    res = orig(nn_state, *a, **k)
+                    captured[rec.cur] = res
+                    return res
+                ev.system.statistics = wrapped
+
+            def fit(cbs, start, epochs):
+                with contextlib.redirect_stdout(io.StringIO()), contextlib.redirect_stderr(io.StringIO()):
+                    st.fit(data, epochs=epochs, starting_epoch=start, pos_batch_size=4, k=1, lr=0.05, callbacks=[rec] + cbs)
+            names2 = ["kl", "a b"] if variant != "metric/prefilled-same-header" else ["nll"]
+            try:
+                if variant == "metric/prefilled-by-hand":
+                    before = "epoch,old metric\r\n1,0.5\r\n2,0.25\r\n"
+                    with open(path, "w", newline="") as f:
+                        f.write(before)
+                elif variant == "metric/prefilled-same-header":
+                    before = "epoch,nll\r\n1,7\r\n"
+                    with open(path, "w", newline="") as f:
+                        f.write(before)
+                elif variant == "metric/second-evaluator-same-path":
+                    fit([MetricEvaluator(p1, {"nll": mk(0)}, log=path)], 1, e1)
+                else:
+                    ev1 = ObservableEvaluator(p1, [SigmaZ()], log=path, num_samples=6, burn_in=2, steps=1)
+                    fit([ev1], 1, e1)
+                n_before = len(read_csv(path))
+                start2 = 1 if variant.startswith("metric/prefilled") else e1 + 1
+                n0 = len(rec.events)
+                if variant.startswith("metric"):
+                    ev2 = MetricEvaluator(p2, {nm: mk(i + 1) for i, nm in enumerate(names2)}, log=path)
+                    fit([ev2], start2, start2 + e2 - 1)
+                    hdr = ["epoch"] + names2
+                    exp = [[str(ev["e"])] + [str(metric_value(i + 1, ev["w"], 0, 0)) for i in range(len(names2))]
+                           for ev in rec.events[n0:] if ev["k"] == "ee" and ev["e"] % p2 == 0]
+                else:
+                    ev2 = ObservableEvaluator(p2, [SigmaX(), SigmaZ()], log=path, num_samples=6, burn_in=2, steps=1)
+                    wrap_stats(ev2)
+                    fit([ev2], start2, start2 + e2 - 1)
+                    onames = ["SigmaX", "SigmaZ"]
+                    hdr = ["epoch"] + [f"{o}_{s_}" for o in onames for s_ in ("mean", "variance", "std_error")]
+                    exp = [[str(ev["e"])] + [str(captured[ev["w"]][o][s_]) for o in onames for s_ in ("mean", "variance", "std_error")]
+                           for ev in rec.events[n0:] if ev["k"] == "ee" and ev["e"] % p2 == 0 and ev["w"] in captured]
+                rows = read_csv(path)
+            except Exception as e:  # noqa: BLE001
+                err = f"{type(e).__name__}: {str(e)[:120]}"
+            ctx.case(case, nontrivial=True)
+            ctx.count(f"appended-log.{variant}")
+            if err is not None:
+                ctx.oracle("an evaluator given the path of a log file that already exists evaluates and logs as with a fresh file", False, case,
+                           detail={"raised": err}, sig=f"C17/appended-log/{variant}", theorem="C17_records_metric_run, C17_records_observable_run")
+                continue
+            hpos = [i for i, row in enumerate(rows) if row == hdr and i >= (n_before if variant != "metric/prefilled-same-header" else 1)]
+            if hpos:
+                suffix = rows[hpos[-1] + 1:]
+            else:
+                suffix = rows[len(rows) - len(exp):] if exp else []
+            ctx.count("info.appended-log.second-header=" + ("written" if hpos else "absent"))
+            ctx.count("info.appended-log.earlier-content-kept=" + ("yes" if len(rows) >= n_before + len(exp) else "no"))
+            ctx.oracle("log file that already existed: the rows appended by this evaluator (after its header) == one row per evaluation, values computed "
+                       "at those epochs, in order", suffix == exp and len(exp) > 0, case,
+                       detail={"appended": suffix[:4], "expected": exp[:4], "rows_in_file": len(rows), "rows_before": n_before, "period": p2},
+                       sig=f"C17/appended-log/{variant}", theorem="C17_records_metric_run, C17_records_observable_run (old rows arbitrary)")
         finally:
             shutil.rmtree(tmp, ignore_errors=True)
 
@@ -1283,6 +1558,7 @@ def search(ctx):
     drv, ctx.driver = ctx.driver, None
     try:
         format_spec_cases(ctx)
+        appended_log_cases(ctx)
         for case in gen_cases(ctx, True):
             run_case(ctx, case)
     finally:
@@ -1293,5 +1569,8 @@ def replay(ctx, case):
     if "format_spec" in case:
         format_spec_cases(ctx, forms="fseed" in case or "iseed" in case)
         return
-    case = {k: v for k, v in case.items() if k not in ("at_segment", "callback", "file", "detail")}
+    if "appended_log" in case:
+        appended_log_cases(ctx)
+        return
+    case = {k: v for k, v in case.items() if k not in ("at_segment", "callback", "file", "detail", "raised", "model_error")}
     run_case(ctx, case)
